@@ -18,11 +18,15 @@
      implicit values are 0 / previous (last) value + 1;
    * `prefix_split`, `prefix_no_trailing_underscore`: identifier prefix = file name prefix followed by
      underscores only.
-  Not proved (covered by the correspondence and the implementation-side oracle only): the stream and
-  metadata level of the conversion (feature inference from reserved member names, default clock
-  inference, `$default-stream`, options) and that equal effective documents give equal generated files.
+   * `stream_conversion`: a whole abstract data stream type (reserved packet context / event header members,
+     extra members, common context, event record types) converts to its barectf 3 spelling: features inferred
+     from the reserved members, default clock from the property mappings.
+  Not proved (covered by the correspondence and the implementation-side oracle only): the metadata level of
+  the conversion (packet header features, clock type renames, `$default-stream`, options, environment) and that
+  equal effective documents give equal generated files.
 -/
 import BVM.Proofs.V2
+import BVM.Proofs.V2Stream
 namespace BVM
 
 theorem field_type_conversion (a : AFt) (fuel : Nat) (h : a.depth ≤ fuel) : convFt fuel a.r2 = .ok a.r3 :=
@@ -58,7 +62,38 @@ theorem v2_prefix_split (p : String) : ∃ n, p.toList = (rstripUnderscores p).t
 theorem v2_file_prefix_no_trailing_underscore (p : String) : (rstripUnderscores p).toList.getLast? ≠ some '_' :=
   prefix_no_trailing_underscore p
 
+/-- a whole data stream type: the barectf 2 spelling converts to the barectf 3 spelling — features enabled
+    exactly for the reserved members that exist (with their converted types), default clock inferred from the
+    property mappings (event header `timestamp` first, then `timestamp_begin`, then `timestamp_end`), the other
+    packet context members kept as extra members in order, event record types and log levels carried over.
+    Preconditions: no user member bears a reserved name (they would be features), and `timestamp_begin` /
+    `timestamp_end` are mapped to the same clock (otherwise the converter reports a configuration error). -/
+theorem stream_conversion (s : AStream) (hx : ExtrasOK s) (hc : ClocksAgree s) (fuel : Nat)
+    (h1 : 1 ≤ fuel) (hd : s.depth ≤ fuel) : convDst fuel s.r2 = .ok s.r3 := convDst_r2 s hx hc fuel h1 hd
+
+theorem stream_default_clock (s : AStream) (hx : ExtrasOK s) (hc : ClocksAgree s) :
+    defaultClock s.pcFields s.ehFields = .ok (s.clock.map Y.str) := defaultClock_r2 s hx hc
+
+theorem stream_features (s : AStream) (hx : ExtrasOK s) (fuel : Nat) (h : 1 ≤ fuel) :
+    dstFeatures fuel s.pcFields s.ehFields = .ok s.features := dstFeatures_r2 s hx fuel h
+
 /-! ### non-vacuity -/
+
+def c18Stream : AStream :=
+  { isDefault := true,
+    packetSize := ⟨32, false, false, some 32, none, none, none⟩,
+    contentSize := ⟨32, false, false, none, none, none, none⟩,
+    tsBegin := some ⟨64, false, false, none, none, some "clk", none⟩,
+    tsEnd := some ⟨64, false, false, none, none, some "clk", none⟩,
+    discarded := none, seqNum := some ⟨16, false, false, none, none, none, none⟩,
+    extras := [("cpu", .int ⟨8, false, false, none, none, none, none⟩)],
+    eh := some (some ⟨8, false, false, none, none, none, none⟩, none),
+    ecc := none,
+    events := [("e", ⟨some (.int 3), none, some ⟨none, [("x", .str none)]⟩⟩)] }
+
+example : FR.isOkWith (convDst 8 c18Stream.r2) c18Stream.r3 = true := by decide +kernel
+example : c18Stream.clock = some "clk" := by decide +kernel
+
 
 def c18Ft : AFt := .struct (some 8) [
   ("a", .int ⟨12, true, true, some 4, some "hex", some "clk", some "utf8"⟩),
@@ -126,3 +161,6 @@ end BVM
 #print axioms BVM.enum_implicit_after_range
 #print axioms BVM.v2_prefix_split
 #print axioms BVM.v2_file_prefix_no_trailing_underscore
+#print axioms BVM.stream_conversion
+#print axioms BVM.stream_default_clock
+#print axioms BVM.stream_features
